@@ -179,31 +179,45 @@ static int   n_ent[NSTATES], n_ex[NSTATES];
 enum { CALL_NONE, CALL_PROCESS, CALL_ACTIVATE, CALL_DEACTIVATE, CALL_NOGUARD, CALL_QUERY };
 static int   call_kind = CALL_NONE;    // what API call is in progress
 static int   call_before;              // active state when the call began
-static int   rounds;                   // guard rounds seen in this call
-static int   pend_dest[RMAX], pend_org[RMAX], canc[RMAX], entry_seen[RMAX];
 static int   n_enter, n_exit, n_reenter;
 static bool  inside_guard;
 static bool  guards_allowed = true;
 static int   ph;                       // phase automaton position within update()/react()/query()
 static int   ph_kind;                  // 1 update, 2 react, 3 query
 static const Event* ev_ptr;
+// guard rounds of the call in progress.  Only scalars: "cur" is the round being evaluated, "acc" the last
+// round that survived its guards (= the transition accepted so far).
+static int   rounds;
+static bool  cur_open, cur_transition, cur_canc, cur_entry_seen; static int cur_dest, cur_org;
+static bool  acc_valid; static int acc_dest, acc_org;
+static unsigned surv_mask;             // destinations of surviving rounds
 // request ledger: the most recent request made and not yet picked up by a guard round
 static bool  led_valid, led_fresh; static int led_dest, led_org;
 static int   led_round;                // guard round in which it was made (0: before any round of the current call, -1: before the call)
 static bool  led_maybe;                // it may have been dropped as redundant or may be left over by the limit: both are in order
 #if PAYLOAD
 static bool  led_haspay; static Pay led_pay;
-static bool  pend_haspay[RMAX]; static Pay pend_pay[RMAX];
+static bool  cur_haspay; static Pay cur_pay;
+static bool  acc_haspay; static Pay acc_pay;
 #define PAY_EQ1(f) e = e && feq(a.f, b.f);
 #define PAY_ANY1(f) ANYF(p.f);
 static bool  payeq(const Pay& a, const Pay& b) { bool e = true; PAY_FIELDS(PAY_EQ1) return e; }
 static Pay   anypay() { Pay p = Pay(); PAY_FIELDS(PAY_ANY1) return p; }
 #endif
 
-// rounds that carry a transition: all of them in a processing call; in activation round 1 is the initial state itself
-static int first_round() { return call_kind == CALL_ACTIVATE ? 2 : 1; }
-static int last_surviving() { int e = -1; for (int r = 0; r < RMAX; ++r) if (r >= first_round() && r <= rounds && !canc[r]) e = r; return e; }
-static int accepted_before_round() { int e = -1; for (int r = 0; r < RMAX; ++r) if (r >= first_round() && r < rounds && !canc[r]) e = r; return e; }
+// the round under evaluation is over (the next one opens, or enter/exit/reenter begin, or the call returns)
+static void finalize_round() {
+  if (cur_open) {
+    if (cur_transition && !cur_canc) {
+      VA(cur_entry_seen, 305);                                  // both guards were consulted before it counts
+      acc_valid = true; acc_dest = cur_dest; acc_org = cur_org; surv_mask |= 1u << cur_dest;
+#if PAYLOAD
+      acc_haspay = cur_haspay; acc_pay = cur_pay;
+#endif
+    }
+    cur_open = false;
+  }
+}
 
 static void note_request(int origin, int dest) { led_valid = true; led_fresh = true; led_dest = dest; led_org = origin;
   led_round = (call_kind == CALL_PROCESS || call_kind == CALL_ACTIVATE) ? rounds : -1; led_maybe = false;
@@ -251,16 +265,17 @@ static void act(TControl& c, int I) {
 }
 
 template <typename TGuard>
-static void guard_act(TGuard& c, int I, int r) {
+static void guard_act(TGuard& c, int I) {
   unsigned char k = nondet_u8();
 #if PINGPONG
   k = 0;
 #endif
-  if (k & 1) { if (k & 2) act(c, I); c.cancelPendingTransition(); canc[r] = 1; if (!(k & 2) && (k & 4)) act(c, I); }
+  if (k & 1) { if (k & 2) act(c, I); c.cancelPendingTransition(); cur_canc = true; if (!(k & 2) && (k & 4)) act(c, I); }
   else act(c, I);
 }
 
 static void lifecycle_common() {
+  finalize_round();
   led_fresh = false;     // a request still unconsumed here was either dropped as redundant or is left over (limit)
   VA(!inside_guard, 310);                                  // guard evaluation never runs enter/exit/reenter
   VA(call_kind != CALL_QUERY && call_kind != CALL_NONE, 103);
@@ -279,38 +294,51 @@ static void phase(int idx, bool is_root, int I) {
   VA(n_enter + n_exit + n_reenter == 0 && rounds == 0, 505);   // before any guard/exit/enter of this call
 }
 
+// what a guard must see: the pending transition of its round and the transition accepted so far
 template <typename TGuard>
-static void guard_view(TGuard& c, int r) {
+static void guard_view(TGuard& c) {
+  if (cur_transition) {
 #if PAYLOAD
-  { const Pay* p = c.pendingTransition().payload();
-    if (r >= 1) { VA((p != 0) == pend_haspay[r], 702); if (p && pend_haspay[r]) VA(payeq(*p, pend_pay[r]), 702); } }
+    { const Pay* p = c.pendingTransition().payload(); VA((p != 0) == cur_haspay, 702); if (p && cur_haspay) VA(payeq(*p, cur_pay), 702); }
 #endif
-  if (r >= 1) { VA(c.pendingTransition().destination == pend_dest[r] && c.pendingTransition().origin == pend_org[r], 605); }
-  int a = accepted_before_round();
-  if (a < 0) VA(!c.currentTransition(), 606);
-  else VA(c.currentTransition().destination == pend_dest[a] && c.currentTransition().origin == pend_org[a], 606);
+    VA(c.pendingTransition().destination == cur_dest && c.pendingTransition().origin == cur_org, 605);
+  }
+  if (!acc_valid) VA(!c.currentTransition(), 606);
+  else VA(c.currentTransition().destination == acc_dest && c.currentTransition().origin == acc_org, 606);
 }
 
 // a guard round opens: the pending transition must be the latest request (C02), which is thereby consumed
 template <typename TGuard>
 static void open_round(TGuard& c) {
-  rounds++; vassume(rounds < RMAX);
-  int r = rounds;
-  pend_dest[r] = c.pendingTransition().destination; pend_org[r] = c.pendingTransition().origin; canc[r] = 0; entry_seen[r] = 0;
+  finalize_round();
+  rounds++; cur_open = true; cur_transition = true; cur_canc = false; cur_entry_seen = false;
+  cur_dest = c.pendingTransition().destination; cur_org = c.pendingTransition().origin;
 #if PAYLOAD
-  { const Pay* p = c.pendingTransition().payload(); pend_haspay[r] = p != 0; if (p) pend_pay[r] = *p; }
+  { const Pay* p = c.pendingTransition().payload(); cur_haspay = p != 0; if (p) cur_pay = *p; }
 #endif
   VA(led_valid, 210);                                      // a round is only ever opened for a request
   if (led_valid) {
-    VA(pend_dest[r] == led_dest, 211);                     // the later request replaced earlier ones
-    VA(pend_org[r] == led_org, 608);                       // ... and carries its requester as origin
+    VA(cur_dest == led_dest, 211);                         // the later request replaced earlier ones
+    VA(cur_org == led_org, 608);                           // ... and carries its requester as origin
 #if PAYLOAD
-    VA(pend_haspay[r] == led_haspay, 705);
-    if (pend_haspay[r] && led_haspay) VA(payeq(pend_pay[r], led_pay), 701);
+    VA(cur_haspay == led_haspay, 705);
+    if (cur_haspay && led_haspay) VA(payeq(cur_pay, led_pay), 701);
 #endif
   }
   led_valid = false; led_fresh = false;
-  VA(pend_dest[r] < NSTATES, 104);
+  VA(cur_dest < NSTATES, 104);
+  vassume(cur_dest < NSTATES);
+}
+
+// activation: the first evaluation is that of the initial state itself and carries no transition
+template <typename TGuard>
+static void open_activation_round(TGuard& c) {
+  if (rounds == 0) { rounds = 1; cur_open = true; cur_transition = false; cur_canc = false; cur_entry_seen = false; cur_dest = 0; cur_org = INV;
+    VA(!c.pendingTransition(), 330);
+#if PAYLOAD
+    cur_haspay = false;
+#endif
+  } else open_round(c);
 }
 
 template <int I> struct St : FSM::State {
@@ -320,29 +348,22 @@ template <int I> struct St : FSM::State {
     VA(n_enter + n_exit + n_reenter == 0, 311);
     inside_guard = true;
     if (call_kind == CALL_ACTIVATE) {
-      if (!HEAD) { rounds++; vassume(rounds < RMAX); int r = rounds;     // round index 1 = evaluation of the initial state
-        if (r == 1) { pend_dest[r] = 0; pend_org[r] = INV; canc[r] = 0; VA(!c.pendingTransition(), 330);
-#if PAYLOAD
-          pend_haspay[r] = false;
-#endif
-        } else { rounds--; open_round(c); } }
-      int r = rounds;
-      if (HEAD) VA(r >= 1 && !canc[r], 302);                // the root's veto ends the round
-      VA(r >= 1 && pend_dest[r] == I, 303);
-      VA(!entry_seen[r], 304); entry_seen[r] = 1;
+      if (!HEAD) open_activation_round(c);
+      else VA(cur_open && !cur_canc, 302);                 // the root's veto ends the round
+      VA(cur_open && cur_dest == I, 303);
+      VA(!cur_entry_seen, 304); cur_entry_seen = true;
       VA(mon_active == -1, 105);
       view(c, I, false);
-      if (r >= 2) guard_view(c, r);
-      guard_act(c, I, r);
+      guard_view(c);
+      guard_act(c, I);
     } else {
       VA(call_kind == CALL_PROCESS, 321);
-      int r = rounds;
-      VA(r >= 1 && !canc[r], 302);                       // not consulted once the exit guard has cancelled
-      VA(r >= 1 && pend_dest[r] == I, 303);              // the entry guard of the pending destination
-      VA(!entry_seen[r], 304); entry_seen[r] = 1;
+      VA(cur_open && !cur_canc, 302);                      // not consulted once the exit guard has cancelled
+      VA(cur_open && cur_dest == I, 303);                  // the entry guard of the pending destination
+      VA(!cur_entry_seen, 304); cur_entry_seen = true;
       view(c, I, true);
-      guard_view(c, r);
-      guard_act(c, I, r);
+      guard_view(c);
+      guard_act(c, I);
     }
     inside_guard = false;
   }
@@ -356,8 +377,8 @@ template <int I> struct St : FSM::State {
     inside_guard = true;
     open_round(c);
     view(c, I, true);
-    guard_view(c, rounds);
-    guard_act(c, I, rounds);
+    guard_view(c);
+    guard_act(c, I);
     inside_guard = false;
   }
   void enter(PlanControl& c) {
@@ -367,14 +388,12 @@ template <int I> struct St : FSM::State {
     mon_active = I; n_enter++; n_ent[I]++;
     VA(g_active() == I, 112);
     view(c, I, false);
-    if (call_kind == CALL_PROCESS || call_kind == CALL_ACTIVATE) {
-      int a = last_surviving();
-      if (a >= 0) { VA(c.currentTransition().destination == I, 610);
-        VA(c.currentTransition().origin == pend_org[a], 611);
+    if ((call_kind == CALL_PROCESS || call_kind == CALL_ACTIVATE) && acc_valid) {
+      VA(c.currentTransition().destination == I, 610);
+      VA(c.currentTransition().origin == acc_org, 611);
 #if PAYLOAD
-        { const Pay* p = c.currentTransition().payload(); VA((p != 0) == pend_haspay[a], 703); if (p && pend_haspay[a]) VA(payeq(*p, pend_pay[a]), 703); }
+      { const Pay* p = c.currentTransition().payload(); VA((p != 0) == acc_haspay, 703); if (p && acc_haspay) VA(payeq(*p, acc_pay), 703); }
 #endif
-      }
     }
   }
   void reenter(PlanControl& c) {
@@ -383,12 +402,12 @@ template <int I> struct St : FSM::State {
     n_reenter++;
     VA(g_active() == I, 112);
     view(c, I, false);
-    if (call_kind == CALL_PROCESS) { int a = last_surviving();
-      if (a >= 0) { VA(c.currentTransition().destination == I, 610);
+    if (call_kind == CALL_PROCESS && acc_valid) {
+      VA(c.currentTransition().destination == I, 610);
 #if PAYLOAD
-        { const Pay* p = c.currentTransition().payload(); VA((p != 0) == pend_haspay[a], 703); if (p && pend_haspay[a]) VA(payeq(*p, pend_pay[a]), 703); }
+      { const Pay* p = c.currentTransition().payload(); VA((p != 0) == acc_haspay, 703); if (p && acc_haspay) VA(payeq(*p, acc_pay), 703); }
 #endif
-      } }
+    }
   }
   void exit(PlanControl& c) {
     vrec(5, I); lifecycle_common();
@@ -414,15 +433,10 @@ struct Rt : FSM::State {
     VA(call_kind == CALL_ACTIVATE, 322);                   // the root's entry guard belongs to activation only
     VA(n_enter + n_exit + n_reenter == 0, 311);
     inside_guard = true;
-    rounds++; vassume(rounds < RMAX); int r = rounds;
-    if (r == 1) { pend_dest[r] = 0; pend_org[r] = INV; canc[r] = 0; entry_seen[r] = 0; VA(!c.pendingTransition(), 330);
-#if PAYLOAD
-      pend_haspay[r] = false;
-#endif
-    } else { rounds--; open_round(c); }
+    open_activation_round(c);
     view(c, -1, false);
-    if (r >= 2) guard_view(c, r);
-    guard_act(c, -1, r);
+    guard_view(c);
+    guard_act(c, -1);
     inside_guard = false;
   }
   void exitGuard(GuardControl&) { vrec(22, 0); VA(0, 323); }  // never consulted in a flat machine
@@ -438,7 +452,6 @@ struct Rt : FSM::State {
   void query(Event& e, ConstControl& c) const { vrec(32, 0); VA(&e == ev_ptr, 510); VA(ph_kind == 3, 511); VA(ph == 0, 512); ph = 1; view(c, -1, true); }
 };
 
-// ------------------------------------------------------------------------------------------ per-call checks
 static int  g_active() { return g->activeStateId(); }
 static bool g_is(int j) { return g->isActive(static_cast<ffsm2::StateID>(j)); }
 #if CONTEXT == 3
@@ -449,10 +462,10 @@ static const void* g_ctx() { return 0; }
 static const void* g_ctx() { return &g->context(); }
 #endif
 
-
+// ------------------------------------------------------------------------------------------ per-call checks
 static void begin_call(int kind) {
   call_kind = kind; call_before = mon_active; rounds = 0; n_enter = n_exit = n_reenter = 0; ph = 0; ph_kind = 0;
-  for (int r = 0; r < RMAX; ++r) { canc[r] = 0; entry_seen[r] = 0; }
+  cur_open = false; acc_valid = false; surv_mask = 0;
 }
 
 static void check_quiescent() {
@@ -466,25 +479,23 @@ static void check_quiescent() {
 
 // end of update()/react()/immediateChange*(): last surviving request wins (C02/C03), bounded rounds (C04), history (C11)
 static void end_process() {
-  int a = last_surviving();
+  finalize_round();
   int now = g->activeStateId();
   check_quiescent();
   VA(rounds <= LIMIT, 401);
-  for (int r = 0; r < RMAX; ++r) if (r >= 1 && r <= rounds && !canc[r]) VA(entry_seen[r], 305);   // both guards consulted before it counts
-  if (a < 0) { VA(now == call_before, 221); VA(n_enter + n_exit + n_reenter == 0, 222);
-               VA(now == call_before && n_enter + n_exit + n_reenter == 0, 331); }                  // every round vetoed: stay put
+  if (!acc_valid) { VA(now == call_before, 221); VA(n_enter + n_exit + n_reenter == 0, 222);
+                    VA(now == call_before && n_enter + n_exit + n_reenter == 0, 331); }                 // every round vetoed: stay put
   else {
-    int e = pend_dest[a];
-    VA(now == e, 223); VA(now == e, 332);                                                      // falls back to the last survivor
-    if (e == call_before) VA(n_reenter == 1 && n_enter == 0 && n_exit == 0, 224);
+    VA(now == acc_dest, 223); VA(now == acc_dest, 332);                                                 // falls back to the last survivor
+    if (acc_dest == call_before) VA(n_reenter == 1 && n_enter == 0 && n_exit == 0, 224);
     else VA(n_enter == 1 && n_exit == 1 && n_reenter == 0, 225);
   }
   // a destination none of whose rounds survived is not entered on account of those requests
-  if (now != call_before) { bool ok = false; for (int r = 0; r < RMAX; ++r) if (r >= 1 && r <= rounds && !canc[r] && pend_dest[r] == now) ok = true; VA(ok, 333); }
+  if (now != call_before && now < NSTATES) VA((surv_mask >> now) & 1u, 333);
   // a request still unconsumed when processing ends
   if (led_valid) {
     if (led_round >= 1) {            // made inside a guard of this call
-      bool same = a >= 0 && led_dest == pend_dest[a];          // asks for what already won: may be dropped as redundant
+      bool same = acc_valid && led_dest == acc_dest;           // asks for what already won: may be dropped as redundant
       bool limit = rounds == LIMIT;                             // substitution limit reached: left over for the next processing point
       VA(same || limit, 240);
       if (!same) { VA(g->_core.request.destination == led_dest && g->_core.request.origin == led_org, 402); }
@@ -496,36 +507,37 @@ static void end_process() {
     led_fresh = false; led_round = -1;
   }
 #if HISTORY
-  if (a < 0) VA(!g->previousTransition(), 1101);
+  if (!acc_valid) VA(!g->previousTransition(), 1101);
   else { VA(g->previousTransition().destination == now, 1102);
-         VA(g->previousTransition().origin == pend_org[a], 1103);
+         VA(g->previousTransition().origin == acc_org, 1103);
 #if PAYLOAD
-         { const Pay* p = g->previousTransition().payload(); VA((p != 0) == pend_haspay[a], 704); VA((p != 0) == pend_haspay[a], 1104);
-           if (p && pend_haspay[a]) { VA(payeq(*p, pend_pay[a]), 704); VA(payeq(*p, pend_pay[a]), 1104); } }
+         { const Pay* p = g->previousTransition().payload(); VA((p != 0) == acc_haspay, 704); VA((p != 0) == acc_haspay, 1104);
+           if (p && acc_haspay) { VA(payeq(*p, acc_pay), 704); VA(payeq(*p, acc_pay), 1104); } }
 #endif
   }
+#endif
+#if PINGPONG
+  if (rounds == LIMIT) vwitness(9002);                         // the limit is really reached when every guard redirects
 #endif
   call_kind = CALL_NONE;
 }
 
 static void end_activate() {
-  int a = last_surviving();     // round 1 (the initial state's own guard) cannot veto: something must be entered
-  int e = 0; for (int r = 0; r < RMAX; ++r) if (r >= 2 && r <= rounds && !canc[r]) e = pend_dest[r];
+  finalize_round();
+  int e = acc_valid ? acc_dest : 0;   // the initial state's own guard cannot veto: something must be entered
   check_quiescent();
   VA(mon_active == e, 226); VA(mon_active == e, 334);
   VA(n_enter == 1 && n_exit == 0 && n_reenter == 0, 227);
   VA(rounds <= 1 + LIMIT, 403);
-  if (led_valid) { int acc = last_surviving();
-    bool same = acc >= 0 && led_dest == pend_dest[acc]; bool limit = rounds == 1 + LIMIT;
+  if (led_valid) {
+    bool same = acc_valid && led_dest == acc_dest; bool limit = rounds == 1 + LIMIT;
     VA(led_round >= 1, 243); VA(same || limit, 241);
     if (same && !limit) led_valid = false; else led_maybe = same;
     led_fresh = false; led_round = -1; }
 #if HISTORY
-  { int acc = -1; for (int r = 0; r < RMAX; ++r) if (r >= 2 && r <= rounds && !canc[r]) acc = r;
-    if (acc < 0) VA(!g->previousTransition(), 1105);
-    else { VA(g->previousTransition().destination == mon_active, 1106); VA(g->previousTransition().origin == pend_org[acc], 1107); } }
+  if (!acc_valid) VA(!g->previousTransition(), 1105);
+  else { VA(g->previousTransition().destination == mon_active, 1106); VA(g->previousTransition().origin == acc_org, 1107); }
 #endif
-  (void)a;
   call_kind = CALL_NONE;
 }
 
@@ -552,13 +564,13 @@ static void end_noguard(int expect) {        // replayTransition / replayEnter /
 
 // ------------------------------------------------------------------------------------------ driver
 #if CONTEXT == 1
-#define CONSTRUCT(buf) new (buf) Inst(Ctx{7u, 0u})
+#define CONSTRUCT(buf) new (&slot.obj) Inst(Ctx{7u, 0u})
 #elif CONTEXT == 2
-#define CONSTRUCT(buf) new (buf) Inst(the_ctx)
+#define CONSTRUCT(buf) new (&slot.obj) Inst(the_ctx)
 #elif CONTEXT == 3
-#define CONSTRUCT(buf) new (buf) Inst(&the_ctx)
+#define CONSTRUCT(buf) new (&slot.obj) Inst(&the_ctx)
 #else
-#define CONSTRUCT(buf) new (buf) Inst
+#define CONSTRUCT(buf) new (&slot.obj) Inst
 #endif
 static Ctx the_ctx = {7u, 0u};
 
@@ -567,9 +579,12 @@ static void do_activate(Inst* m) { begin_call(CALL_ACTIVATE); m->enter(); end_ac
 #endif
 
 extern "C" int harness(void) {
-  alignas(Inst) static unsigned char buf[sizeof(Inst)];
-  nondet_fill(buf, sizeof buf);                                  // every byte pattern pre-filling the storage
-  g = reinterpret_cast<Inst*>(buf);
+  // storage: a union keeps the object typed for the solver while its bytes can be pre-filled arbitrarily
+  union Slot { Inst obj; unsigned char bytes[sizeof(Inst)]; Slot() {} ~Slot() {} };
+  Slot slot;
+  unsigned char* const buf = slot.bytes;
+  nondet_fill(buf, sizeof(Inst));                                // every byte pattern pre-filling the storage
+  g = &slot.obj;
   ctx_addr = &the_ctx;
 #if MANUAL
   Inst* m = CONSTRUCT(buf);
